@@ -85,11 +85,19 @@ SEEDED_CHECK = {
     "C07-A4": "C11", "C08-A4": "C13", "C11-A4": "C10",
     "C08-B6": "C13", "C13-A4": "C14", "C12-A7": "C04",
     "C03-B8": "C04", "C04-B8": "C12", "C08-A8": "C13",
+    "C13-B9": "C06", "C16-A9": "C12",
     "C02-A5": "C06", "C07-B5": "C14", "C08-A5": "C13", "C14-A5": "C18", "C14-B5": "C16", "C19-A5": "C07", "C19-B5": "C16",
 }
 
 
 SEEDED_BUDGET = {"C18-B8": 120, "C10-B8": 120}
+# confirmed changes the simulation does not reach (DESIGN, wave 9): kept under seeded/, not in the catalogue
+SEEDED_OUT_OF_REACH = {
+    "C05-A9": "needs the wall clock to step while the monotonic clock goes on; the synctest clock has one reading and the production clock of the throttle cannot be injected",
+    "C20-A9": "same: wall-clock step under the limiter's default clock",
+    "C06-B9": "descriptor leak per delivered D-Bus event; there is no system bus in the simulation, every event attempt fails before a connection exists",
+    "C18-B9": "needs more than 256 reconnects in one thermal-writer process (each allocates 32 MiB); the stratum that did this made the runs take minutes",
+}
 
 
 def sh(cmd, cwd=None):
@@ -120,6 +128,8 @@ def main():
         sh("git -C /repo worktree remove --force %s" % WT)
     for d in sorted(os.listdir(os.path.join(V, "seeded"))):
         meta = json.load(open(os.path.join(V, "seeded", d, "meta.json")))
+        if d in SEEDED_OUT_OF_REACH:
+            continue
         e = {"id": "seeded/" + d, "patch": "seeded/%s/patch.diff" % d, "check": SEEDED_CHECK.get(d, meta["property"]), "origin": "sub-agent, written against " + meta["property"]}
         if d in SEEDED_BUDGET:
             e["budget"] = SEEDED_BUDGET[d]  # needs more than the quick tier's default budget (see DESIGN, wave matrix)
